@@ -51,6 +51,8 @@ def instances(tier, seed):
     add("rt:full:emptied-kind-with-table", style='full', N=2, terms={}, tilt='zero', c0=1, tables_without_terms=True, cost=10)
     add("rt:atomic:no-cell", style='atomic', N=2, terms={'bond': 1}, tilt=None, c0=6, cost=10)
     add("rt:full:terms-without-coefficient-tables", style='full', N=2, terms={'bond': 1, 'angle': 1}, tilt='zero', c0=None, type_hi=3, cost=30)
+    add("rt:full:bond:ortho:bead-model-masses-no-element", style='full', N=2, terms={'bond': 1}, tilt='zero', c0=1, type_table='beads', cost=30)
+    add("rt:atomic:no-terms:bead-model-masses-no-element", style='atomic', N=2, terms={}, tilt='zero', c0=None, type_table='beads', cost=10)
     add("dispatch:path-and-file", family='dispatch', cost=3)
     add("wide-fields", family='wide', cost=2)
     add("many-types", family='many', cost=2)
@@ -61,6 +63,15 @@ def instances(tier, seed):
     return out
 
 
+def type_table(p):
+    """atom type table of the instance.  'beads': a coarse-grained / united-atom model - masses that are no element's (within the default
+    tolerance), labels that are the model's own names; on reading, elements fall back to the type numbers (C14) while the LABELS written in
+    the Masses comments are still the labels"""
+    if p.get('type_table') == 'beads':
+        return dict(elements=['BB', 'W'], labels=['BB', 'SC1'], masses=[72.0, 13.3], read_elements=['1', '2'])
+    return dict(elements=['C', 'N'], labels=['C_R', 'N_3'], masses=[12.0107, 14.0067], read_elements=['C', 'N'])
+
+
 def build(ctx, p):
     Atoms = ctx.ms.Atoms
     N = p['N']
@@ -68,8 +79,9 @@ def build(ctx, p):
     kinds = list(p.get('terms', {}))
     if p.get('tables_without_terms'):
         kinds = ['bond', 'angle']
-    kw = dict(atom_types=[0] * N, positions=np.zeros((N, 3)), atom_type_elements=['C', 'N'], atom_type_labels=['C_R', 'N_3'],
-              atom_type_masses=[12.0107, 14.0067])
+    tt = type_table(p)
+    kw = dict(atom_types=[0] * N, positions=np.zeros((N, 3)), atom_type_elements=list(tt['elements']), atom_type_labels=list(tt['labels']),
+              atom_type_masses=list(tt['masses']))
     if c0 is not None:
         kw['pair_coeffs'] = [COEFFS[(c0 + 6) % 8], COEFFS[(c0 + 3) % 8]]
     ncoef = {}
@@ -214,7 +226,7 @@ def body(ctx, p):
         for r, (w, com, raw) in enumerate(sect.get('Pair Coeffs', [])):
             ok = ok and raw == ' %d %s' % (r + 1, a.pair_coeffs[r])
         for r, (w, com, raw) in enumerate(sect.get('Masses', [])):
-            ok = ok and w[0] == str(r + 1) and abs(float(w[1]) - [12.0107, 14.0067][r]) < 1e-6 and com == ['C_R', 'N_3'][r]
+            ok = ok and w[0] == str(r + 1) and abs(float(w[1]) - type_table(p)['masses'][r]) < 1e-6 and com == type_table(p)['labels'][r]
         ctx.require('written header counts, sections, masses and coefficient rows state the structure', bool(ok), detail=dict(hdr={k_: str(v) for k_, v in hdr.items()}))
         if not ok:
             return
@@ -271,8 +283,9 @@ def body(ctx, p):
             got = [str(x) for x in getattr(r, COEFF_ATTR[k])]
             ctx.require(f're-read {k} coefficients token for token (comment kept)', got == [norm_coeff(s, angle=(k == 'angle')) for s in tab], detail=dict(got=got))
         ctx.require('re-read pair coefficients token for token', [str(x) for x in r.pair_coeffs] == [norm_coeff(s) for s in a.pair_coeffs])
-        ctx.require('re-read masses, labels and elements', list(r.atom_type_labels) == ['C_R', 'N_3'] and list(r.atom_type_elements) == ['C', 'N']
-                    and all(abs(float(x) - y) < 1e-6 for x, y in zip(r.atom_type_masses, [12.0107, 14.0067])))
+        ctx.require('re-read masses, labels and elements', list(r.atom_type_labels) == type_table(p)['labels'] and list(r.atom_type_elements) == type_table(p)['read_elements']
+                    and all(abs(float(x) - y) < 1e-6 for x, y in zip(r.atom_type_masses, type_table(p)['masses'])),
+                    detail=dict(labels=list(r.atom_type_labels), elements=list(r.atom_type_elements)))
         if cell is None:
             ctx.require('no cell read back', r.cell is None)
         else:
